@@ -248,6 +248,16 @@ def parallel_map(fn, items, procs=None):
         return pool.map(fn, items, chunksize=max(1, len(items) // (procs * 8)))
 
 
+def as_loadable(doc):
+    """what load_network() would hand to network_from_json for this document: documents that carry the YANG-style
+    per-frequency loss list need gnpy's own yang_to_legacy conversion (the only shipped case is
+    tests/data/network_per_frequency_loss_expected.json); every other document is used as it is"""
+    if 'loss_coef_per_frequency' in json.dumps(doc):
+        from gnpy.tools.convert_legacy_yang import yang_to_legacy
+        return yang_to_legacy(copy.deepcopy(doc))
+    return doc
+
+
 def exc_text(e):
     return f'{type(e).__name__}: {e}', ''.join(traceback.format_exception(type(e), e, e.__traceback__)[-6:])
 
@@ -282,7 +292,7 @@ def reference_propagation(net, req, equipment, src=None, dst=None):
         keep = {'raman_params': SimParams._shared_dict['raman_params'].to_json(),
                 'nli_params': SimParams._shared_dict['nli_params'].to_json()}
         SimParams.set_params({'raman_params': {'flag': True, 'result_spatial_resolution': 10e3,
-                                               'solver_spatial_resolution': 200}})
+                                               'solver_spatial_resolution': 2000}})
         try:
             si = propagate(path, req, equipment)
         finally:
